@@ -208,7 +208,7 @@ impl<'a> DataTypeAttrs {
         self.iter_for_kind(kind, fallible).map(|x| &x.core)
     }
 
-    pub(crate) fn ghosts_attr(&'a self, container_ty: &'a TypePath, kind: &'a Kind) -> Option<&StructGhostAttrCore> {
+    pub(crate) fn ghosts_attr(&'a self, container_ty: &TypePath, kind: &Kind) -> Option<&StructGhostAttrCore> {
         self.ghosts_attrs.iter()
             .find(|x| x.applicable_to[kind] && x.attr.container_ty.is_some() && x.attr.container_ty.as_ref().unwrap() == container_ty)
             .or_else(|| self.ghosts_attrs.iter().find(|x| x.applicable_to[kind] && x.attr.container_ty.is_none())).map(|x| &x.attr)
